@@ -13,6 +13,13 @@ func genC12(p *Plan, r *RNG) {
 	p.Flavor = "txn"
 	p.Cfg = Config{Realm: "sim.realm", LatCSns: int64(r.Range(1, 60))*ms + int64(r.Intn(1000))*7 + 3, LatSPns: ms,
 		RTOms: r.PickInt([]int{0, 1, 10, 50, 100, 200, 400, 800, 1000, 1600, 1599}), Extra: map[string]int64{}}
+	stream := r.Chance(1, 6)
+	if stream {
+		// the client speaks over a stream (its Conn is a STUNConn): same identifiers, same
+		// timetable - the library retransmits whatever the transport is
+		p.Cfg.Extra["stream"] = 1
+		p.Flavor = "txn-stream"
+	}
 	n := r.Range(1, 5)
 	for i := 0; i < n; i++ {
 		g := int64(r.Range(1, 3000)) * ms
@@ -56,8 +63,15 @@ func genC12(p *Plan, r *RNG) {
 		}
 	case 1:
 		// write error on the k-th transmission overall
-		p.IOFaults = append(p.IOFaults, IOFault{M: Match{Sock: "client", Op: "WriteTo", Nth: r.Range(1, 8)}, Do: "error"})
+		wr := "WriteTo"
+		if stream {
+			wr = "Write"
+		}
+		p.IOFaults = append(p.IOFaults, IOFault{M: Match{Sock: "client", Op: wr, Nth: r.Range(1, 8)}, Do: "error"})
 	case 2:
+		if stream {
+			break // nothing is lost on a stream
+		}
 		// loss on the way to the server (the server never sees those transmissions)
 		for k := r.Range(1, 3); k > 0; k-- {
 			p.NetFaults = append(p.NetFaults, NetFault{M: Match{Flow: "c1>srv", What: "binding-req", Nth: r.Range(1, 9)}, Do: r.Pick([]string{"drop", "dup", "delay"}), Arg: int64(r.Range(1, 2500)) * ms})
@@ -65,6 +79,9 @@ func genC12(p *Plan, r *RNG) {
 	}
 	if r.Chance(1, 6) {
 		cls := r.Pick([]string{"log:*", "lock", "rlock", "unlock", "sock:client:WriteTo", "sock:client:ReadFrom"})
+		if stream {
+			cls = r.Pick([]string{"log:*", "lock", "rlock", "unlock", "sock:client:Write", "sock:client:Read"})
+		}
 		p.Stalls = append(p.Stalls, Stall{M: Match{Class: cls, Args: "*", Nth: r.Range(1, 30)}, ParkNS: r.PickI64([]int64{0, 1, ms, 250 * ms, 3 * sec})})
 	}
 	p.QuietNS = 15 * sec
